@@ -8,7 +8,7 @@ LEVEL = 'proof'
 COQ_TARGETS = ['C01/ModMapProofs.vo', 'C01/Props.vo', 'C01/Corr.vo']
 PROPS = 'C01/Props.v'
 EXTRACTED = []
-CASE_IMPORTS = 'From V Require Import C05.Model C01.Model C01.ModMap C01.Corr.'
+CASE_IMPORTS = 'From V Require Import C05.Model C06.Model C01.Model C01.ModMap C01.Corr.'
 RULE = ('input molecules = sequences of 1-6 residues drawn from 3 residue kinds (2-4 atoms each, optional hydrogens, an '
         'unmapped residue kind), linear / branched / cross-linked / ring connectivity, residue numbers with gaps and repeats, '
         'node keys consecutive, sparse or shuffled; mapping sets with one-to-one, many-to-one, shared atoms (two particles), '
@@ -225,6 +225,136 @@ def gen_mod_case(rng):
     return {'kind': 'mods', 'mol': mol, 'maps': maps, 'modmaps': modmaps, 'ptm': ptm, 'labels': [[k, v] for k, v in sorted(labels.items())]}
 
 
+# ---------------------------------------------------------------- shipped data
+REAL_RESIDUES = ['ALA', 'GLY', 'SER', 'VAL', 'LEU', 'THR', 'ASN', 'ASP', 'GLU', 'GLN', 'LYS', 'PHE', 'TYR', 'MET', 'CYS', 'ILE', 'PRO', 'TRP', 'ARG']
+_REAL = {}
+
+
+def real_env():
+    if not _REAL:
+        import os
+        import vermouth
+        import vermouth.forcefield
+        import vermouth.map_input
+        from vermouth import DATA_PATH
+        ffs = vermouth.forcefield.find_force_fields(os.path.join(DATA_PATH, 'force_fields'))
+        maps = vermouth.map_input.read_mapping_directory(os.path.join(DATA_PATH, 'mappings'), ffs)
+        _REAL.update(ffs=ffs, maps=maps)
+    return _REAL
+
+
+def gen_real_case(rng):
+    """a peptide built from blocks of the shipped charmm force field, mapped with the shipped charmm -> martini3001 / martini22 mappings"""
+    n = rng.randint(2, 5)
+    seq = []
+    for _ in range(n):
+        r = rng.choice(REAL_RESIDUES)
+        if seq.count(r) < 2:
+            seq.append(r)
+    return {'kind': 'real', 'seq': seq, 'to': rng.choice(['martini3001', 'martini3001', 'martini22']),
+            'first_resid': rng.choice([1, 1, 7, 42]), 'gap': rng.random() < 0.3, 'keys': rng.choice(['consecutive', 'sparse', 'shuffled_within']),
+            'seed': rng.randrange(10 ** 6), 'fast': True, 'elements': rng.random() < 0.6}
+
+
+def run_real(inp):
+    import random
+    import vermouth.molecule as vm
+    from vermouth.processors import do_mapping as dm
+    env = real_env()
+    ff_from, ff_to = env['ffs']['charmm'], env['ffs'][inp['to']]
+    maps = env['maps']
+    rng = random.Random(inp['seed'])
+    mol = vm.Molecule(force_field=ff_from)
+    key = 0
+    resid = inp['first_resid']
+    prevC = None
+    atoms_meta = []
+    for resname in inp['seq']:
+        block = ff_from.blocks[resname]
+        names = list(block.nodes)
+        if inp['keys'] == 'shuffled_within':
+            rng.shuffle(names)
+        local = {}
+        for nme in names:
+            if inp['keys'] == 'sparse':
+                key += rng.choice([1, 1, 2, 5])
+            else:
+                key += 1
+            attrs = dict(block.nodes[nme])
+            attrs.update(resid=resid, chain='A')
+            if inp.get('elements'):
+                attrs['element'] = nme.lstrip('0123456789')[:1]
+            mol.add_node(key, **attrs)
+            local[nme] = key
+        for u, v in block.edges:
+            mol.add_edge(local[u], local[v])
+        if prevC is not None and 'N' in local:
+            mol.add_edge(prevC, local['N'])
+        prevC = local.get('C')
+        resid += 2 if inp['gap'] else 1
+    mappings = maps['charmm'][inp['to']]
+    relevant = [(name, mp) for name, mp in mappings.items() if mp.type == 'block' and len(mp.names) == 1 and mp.names[0] in inp['seq']]
+    # codes
+    names, resnames, params = {}, {}, {}
+
+    def code(d, x):
+        return d.setdefault(x, len(d) + 1)
+    W = 60
+    mol_atoms = [{'key': k, 'resid': mol.nodes[k]['resid'], 'name': code(names, mol.nodes[k]['atomname']), 'resname': code(resnames, mol.nodes[k]['resname']),
+                  'H': mol.nodes[k].get('element') == 'H',       # exactly what do_mapping looks at
+                  'chain': 1} for k in mol.nodes]
+    enc_maps, found = [], []
+    types = {}
+    for mi, (name, mp) in enumerate(relevant):
+        fk = {k: i for i, k in enumerate(mp.block_from.nodes)}
+        tk = {k: i for i, k in enumerate(mp.block_to.nodes)}
+        frm = [{'key': fk[k], 'name': code(names, nd['atomname']), 'resname': code(resnames, nd['resname']), 'resid': nd.get('resid', 1)} for k, nd in mp.block_from.nodes(data=True)]
+        to_nodes = [{'key': tk[k], 'name': code(names, 'cg:' + nd['atomname']), 'resid': nd.get('resid', 1), 'cg': nd.get('charge_group', 1)} for k, nd in mp.block_to.nodes(data=True)]
+        inters = []
+        for t, lst in mp.block_to.interactions.items():
+            for i in lst:
+                inters.append([code(types, t), [tk[a] for a in i.atoms], code(params, (t, tuple(map(str, i.parameters)), repr(sorted(i.meta.items()))))])
+        mapping = []
+        for a, tgt in mp.mapping.items():
+            ws = []
+            for b, w in tgt.items():
+                wi = round(w * W)
+                if abs(wi - w * W) > 1e-9:
+                    raise ValueError('weight %r is not a multiple of 1/%d' % (w, W))
+                ws.append([tk[b], wi])
+            mapping.append([fk[a], ws])
+        enc_maps.append({'from': frm, 'fedges': [[fk[u], fk[v]] for u, v in mp.block_from.edges],
+                         'to': {'nodes': to_nodes, 'edges': [[tk[u], tk[v]] for u, v in mp.block_to.edges], 'inters': inters}, 'map': mapping})
+        for m in mp.map(mol, node_match=dm._old_atomname_match, edge_match=dm.edge_matcher):
+            found.append([mi, [[k, [[tk[b], round(w * W)] for b, w in v.items()]] for k, v in m[0].items()]])
+    handler = _Catch()
+    lg = logging.getLogger('vermouth')
+    old = lg.level
+    lg.setLevel(logging.DEBUG)
+    lg.addHandler(handler)
+    try:
+        out = dm.do_mapping(mol, maps, ff_to, attribute_keep=('cgsecstruct', 'chain'), attribute_must=('resname',), attribute_stash=('resid',))
+    finally:
+        lg.removeHandler(handler)
+        lg.setLevel(old)
+    beads = []
+    for k in out.nodes:
+        nd = out.nodes[k]
+        beads.append({'key': k, 'name': code(names, 'cg:' + nd['atomname']), 'resid': nd['resid'], 'cg': nd['charge_group'],
+                      'w': [[u, round(w * W)] for u, w in nd['mapping_weights'].items()], 'graph': sorted(nd['graph'].nodes),
+                      'chain': 1 if nd.get('chain') == 'A' else None, 'old': nd.get('_old_resid')})
+    inters = []
+    for t, lst in out.interactions.items():
+        for i in lst:
+            inters.append([code(types, t), list(i.atoms), code(params, (t, tuple(map(str, i.parameters)), repr(sorted(i.meta.items()))))])
+    msgs = [(r.levelno, str(r.msg)) for r in handler.records]
+    return {'mol': {'atoms': mol_atoms, 'bonds': [list(e) for e in mol.edges]}, 'maps': enc_maps,
+            'found': found, 'beads': beads, 'edges': [list(e) for e in out.edges], 'inters': inters,
+            'overlap': any('covered by multiple blocks' in m for _, m in msgs),
+            'unmapped': any(l >= logging.WARNING and 'not covered by a mapping' in m for l, m in msgs),
+            'graph_is_weights': all(sorted(u for u, _ in b['w']) == b['graph'] for b in beads)}
+
+
 def generate(rng, tier):
     cases = []
     n = 350 if tier == 'quick' else 5000
@@ -235,6 +365,8 @@ def generate(rng, tier):
             cases.append({'kind': 'map', 'mol': mol, 'map': rng.choice(maps)})
     for _ in range(250 if tier == 'quick' else 4000):
         cases.append(gen_mod_case(rng))
+    for _ in range(40 if tier == 'quick' else 600):
+        cases.append(gen_real_case(rng))
     return cases
 
 
@@ -378,6 +510,8 @@ def run_impl(inp):
     from vermouth.processors import do_mapping as dm
     if inp['kind'] == 'mods':
         return run_mods(inp)
+    if inp['kind'] == 'real':
+        return run_real(inp)
     if inp['kind'] == 'map':
         mol, ff_to, mappings = _build(inp['mol'], [inp['map']])
         mp = mappings['ffa']['ffb']['m0']
@@ -482,12 +616,14 @@ def emit_mods(inp, out):
 def emit(inp, out):
     if inp['kind'] == 'mods':
         return emit_mods(inp, out)
+    if inp['kind'] == 'real':
+        inp = dict(inp, mol=out['mol'], maps=out['maps'])
     if inp['kind'] == 'map':
         return 'CMap %s %s %s' % (map_lit(inp['map']), mol_lit(inp['mol']), listlit(out['matches'], m2b_lit))
     found = listlit(out['found'], lambda f: '{| p_m2b := %s; p_block := %s |}' % (m2b_lit(f[1]), block_lit(inp['maps'][f[0]]['to'])))
     beads = listlit(out['beads'], lambda b: '{| i_key := %s; i_name := %s; i_resid := %s; i_cg := %s; i_w := %s; i_chain := %s; i_old := %s |}' % (
         zlit(b['key']), zlit(b['name']), zlit(b['resid']), zlit(b['cg']), pairs_lit(b['w']), optlit(b['chain'], zlit), optlit(b['old'], zlit)))
-    return 'CDo %s %s %s %s %s %s %s %s' % (listlit(inp['maps'], map_lit), mol_lit(inp['mol']), found, beads, pairs_lit(out['edges']),
+    return 'CDo %s %s %s %s %s %s %s %s %s' % (blit(bool(inp.get('fast'))), listlit(inp['maps'], map_lit), mol_lit(inp['mol']), found, beads, pairs_lit(out['edges']),
                                             listlit(out['inters'], lambda i: '(%s, (%s, %s))' % (zlit(i[0]), listlit(i[1], zlit), zlit(i[2]))),
                                             blit(out['overlap']), blit(out['unmapped']))
 
@@ -495,12 +631,14 @@ def emit(inp, out):
 def py_prop(inp, out):
     if inp['kind'] == 'mods':
         return None
-    if inp['kind'] == 'do' and not out['graph_is_weights']:
+    if inp['kind'] in ('do', 'real') and not out['graph_is_weights']:
         return "a particle's 'graph' is not the key set of its 'mapping_weights'"
     return None
 
 
 def nontrivial(inp, out):
+    if inp['kind'] == 'real':
+        return str(inp) if len(out['found']) >= 2 else None
     if inp['kind'] == 'mods':
         return str(inp) if out['mfound'] else None
     if inp['kind'] == 'map':
@@ -511,6 +649,9 @@ def nontrivial(inp, out):
 
 
 def describe(inp, out):
+    if inp['kind'] == 'real':
+        return {'kind': 'real', 'real_to': inp['to'], 'real_n_res': len(inp['seq']), 'real_keys': inp['keys'], 'real_unmapped': out['unmapped'],
+                'real_n_beads': min(len(out['beads']), 12)}
     if inp['kind'] == 'mods':
         return {'kind': 'mods', 'n_mod_placements': min(len(out['mfound']), 4), 'mods_error': out['result'] is None,
                 'mods_no_cover': min(out['no_cover'], 2), 'n_modmaps': len(inp['modmaps'])}
